@@ -39,8 +39,11 @@ def gen_case(rng, car):
         if cplx and kind in ("complex", "t0", "t1") and rng.random() < 0.5:
             v = complex(v, rng.choice([1, -2]))
         return Op(op, [x, Scal(kind, v)]), "scalar", None
-    if r < 0.76:      # tiny (dyadic) scalars: |c| <= 1e-8 is not zero
+    if r < 0.76:      # tiny (dyadic) scalars: |c| <= 1e-8 is not zero; wide ones: ~30 significant bits, exact in float64 only
         x = gen_tt(rng, cplx=False)
+        if rng.random() < 0.5:
+            c = expr.wide_dyadic(rng)
+            return Op(rng.choice(["OAdd", "ORAdd", "OSub", "ORSub", "OMul", "ORMul"]), [x, Scal(rng.choice(["float", "npf64", "t0"]), c, coq_value=Fraction(c))]), "scalar-wide", coqrun.QC
         c = rng.choice([2.0 ** -40, -2.0 ** -35, 2.0 ** -60])
         return Op(rng.choice(["OMul", "ORMul"]), [x, Scal(rng.choice(["float", "npf64", "t0"]), c, coq_value=Fraction(c))]), "scalar-tiny", coqrun.QC
     if r < 0.82:      # factories: ones, zeros, rank-one tensors, meshgrid (the same vector object may serve several axes)
@@ -79,7 +82,7 @@ def gen_case(rng, car):
     return Op("OKron", [x, gen_tt(rng, d=rng.choice([1, 2]), cplx=cplx)]), "kron", None
 
 def nontrivial(e, cat):
-    if cat in ("bcast", "scalar", "div", "scalar-tiny") or cat.startswith("factory"):
+    if cat in ("bcast", "scalar", "div", "scalar-tiny", "scalar-wide") or cat.startswith("factory"):
         return True
     return any(isinstance(a, Lit3) and any(c.shape[2] > 1 for c in a.cores[:-1]) for a in e.args)
 
